@@ -323,6 +323,13 @@ Section Net.
     | _, _ => zero
     end.
 
+  (* operations other than register_evse *)
+  Definition no_register (o : op) : bool :=
+    match o with ORegister _ _ _ => false | _ => true end.
+
+  (* station ids of a list of registrations (station, voltage, angle) *)
+  Definition reg_ids (regs : list (station * Q * Q)) : list station := map (fun p => fst (fst p)) regs.
+
 End Net.
 
 Arguments net A : clear implicits.
@@ -340,6 +347,22 @@ Open Scope Q_scope.
 
 Definition qnet := net Q.
 Definition qcc := constraint_current (A := Q) 0 Qplus Qmult Qabs.
+
+(* equality of two query outcomes up to == on the numbers *)
+Definition oq_equiv (x y : option Q) : Prop :=
+  match x, y with Some u, Some v => u == v | None, None => True | _, _ => False end.
+
+Definition res_equiv (r r' : res (list (list (option Q)))) : Prop :=
+  match r, r' with
+  | Ok a, Ok b => Forall2 (Forall2 oq_equiv) a b
+  | Err e, Err e' => e = e'
+  | _, _ => False
+  end.
+
+(* the schedule is given per station (xf s = the row of station s); each network receives the rows in
+   ITS station order *)
+Definition sched_for (w : nat) (xf : station -> list Q) (sts : list station) : sched Q :=
+  mkSched w (map xf sts).
 
 Inductive cop : Type :=
 | CRegister (s : station) (v ph : Q)
